@@ -7,8 +7,9 @@ ASSUMPTIONS = [
     "amounts, delegation reward claims and pending reward withdrawals; fee shares and proposal escrow are not part of the statement",
     "externally owned = 20-byte address that is not a pool / protocol account (fee pool, reward pool, delegation pool, bounty program, "
     "execution-cost account, wrapped-supply address) and has no contract record",
-    "authority of a step = the addresses whose signature on the successful transaction VERIFIES (recomputed by the harness with the real key "
-    "handlers, independent of Msg.Signers), the stake address of a validator among them, and at EndBlock the stake address of a validator "
+    "authority of a step = the accounts that signed the successful transaction, decided WITHOUT the key handlers of the code under "
+    "verification: ed25519 / secp256k1 by tendermint's reference implementations (address derived there), ethsecp by go-ethereum, "
+    "a btcecsecp (Bitcoin witness) key has no account and gives authority to nobody; independent of Msg.Signers too; the stake address of a validator among them, and at EndBlock the stake address of a validator "
     "that received a BYZANTINE_FAULT freeze record in that step; a failed transaction gives no authority",
     "the per-kind theorems state that the owners an effect function takes from are among the payload fields returned by Signers() "
     "(coq/gen/Facts_Signers.v, regenerated from the source on every run) plus the validator's stake address for the fee of validator "
